@@ -83,6 +83,7 @@ fn main() {
                     "paths_ground" => paths::replay_paths(&v["input"]),
                     "merkle_ground" => merkle::replay_merkle(&v["input"]),
                     "roundtrip_ground" => roundtrip::replay_roundtrip(&v["input"]),
+                    "curry_ground" => t_tree_hash::replay_curry(&v["input"]),
                     "bls_cache_ground" => eval::replay_bls(&v["input"]),
                     "tree_hash_precomputed" => eval::replay_precomputed(&v["input"]),
                     _ => (false, "unknown eval replay".to_string()),
